@@ -30,6 +30,7 @@ type Shared struct {
 	permLimit       int
 	preempt         int
 	poolAdversarial bool
+	lockCheck       bool
 	trackFuncs      bool
 	logSmt          bool
 	params          map[string]int
